@@ -1,5 +1,6 @@
 //! Engine E1: deterministic multi-node simulator (virtual clock, executor, network, storage).
 
+pub mod admin;
 pub mod adv;
 pub mod clock;
 pub mod exec;
